@@ -52,7 +52,7 @@ def run(tier, prop=PROP, mode="json"):
     if mode == "json":
         rule = ("every string <= K symbols over 46 code points (all C0 controls, quote, backslash, slash, DEL, U+0080, U+0085, U+00E9, U+2028, U+2029, U+FFFD, U+FFFF, U+10000, U+1F600) as message text, "
                 "as string attribute value and as attribute name; all pairs of strings <= 1 x 5 types; 35 typed values (int/uint/64-bit up to +-2^53, doubles, bools, nested lists/maps/hashes/string lists) alone, nested and in all ordered pairs; "
-                "file x function x category over {null, empty, 3 printable-ASCII strings} x 4 line numbers; 17 near-miss attribute names x typed values; compact and indented. "
+                "file x function x category over {null, empty, 3 printable-ASCII strings} x 4 line numbers; 17 near-miss attribute names x typed values; compact and indented; formatters obtained through SimplePipeline::formatToJson(true/false) and JsonFormatter::instance() in all six orders of first use within a process, twice each. "
                 "Each output parsed by Python json (strict: single value, no duplicate keys, no NaN) and compared field by field with the expectation built from the inputs")
         assumptions = ["TZ=UTC; the time field is only required to start with the message time to the second",
                        "raw U+2028/U+2029/U+0085 in compact output are legal JSON and not line breaks (LF/CR only), counted in coverage.raw_specials",
